@@ -176,6 +176,7 @@ pub fn dispatch(ctx: &mut Ctx, verb: &str, a: &[String]) -> Out {
         "fault.batch" => crate::verbs_fault::fault_batch(ctx, a),
         "hash.batch" => hash_batch(ctx, a),
         "bf.batch" => bf_batch(ctx, a),
+        "bf.seq" => bf_seq(ctx, a),
         "fiin.new" => fiin_new(ctx, a),
         "fiin.parse" => fiin_parse(ctx, a),
         "race.table" => race_table(),
@@ -477,6 +478,95 @@ fn bf_batch(ctx: &mut Ctx, a: &[String]) -> Out {
             d.map(|x| format!("h{}", hex(&x))).unwrap_or("none".into())
         ));
         n += 1;
+    }
+    ctx.done();
+    if std::fs::write(&a[1], out).is_err() {
+        return Out::usage("output");
+    }
+    Out::ok(J::from(n))
+}
+
+/// bf.seq <infile> <outfile> <threads> <reps>
+/// infile: blocks introduced by "K <keyhex>" (one cipher object per block) followed by "E <hex>" / "D <hex>" operations on that
+/// object, in order. threads = 1: the operations run in file order on the calling thread (histories on one object: the same
+/// argument through both directions, results fed back in, repeats). threads > 1: the operations of a block are dealt round-robin
+/// to that many threads which share the one object (`&Blowfish`; the type is `Sync`), each thread running its share `reps` times
+/// back to back; every result is recorded. outfile: one line per operation: "h<hex>" | "none" (| "differs" when repetitions of one
+/// operation did not all give the same bytes; followed by the first two distinct results).
+fn bf_seq(ctx: &mut Ctx, a: &[String]) -> Out {
+    need!(a, 4);
+    let Some(buf) = ctx.load(&a[0]) else { return Out::usage("input") };
+    let threads: usize = a[2].parse().unwrap_or(1).max(1);
+    let reps: usize = a[3].parse().unwrap_or(1).max(1);
+    let mut blocks: Vec<(Vec<u8>, Vec<(bool, Vec<u8>)>)> = vec![];
+    for l in lines_of(&buf) {
+        let mut it = l.split(' ');
+        let op = it.next().unwrap_or("");
+        let arg = unhex(it.next().unwrap_or(""));
+        match op {
+            "K" => blocks.push((arg, vec![])),
+            "E" | "D" => match blocks.last_mut() {
+                Some(b) => b.1.push((op == "E", arg)),
+                None => return Out::usage("operation before key"),
+            },
+            _ => {}
+        }
+    }
+    fn run(b: &physis::blowfish::Blowfish, enc: bool, m: &[u8]) -> Option<Vec<u8>> {
+        if enc {
+            b.encrypt(m)
+        } else {
+            b.decrypt(m)
+        }
+    }
+    let mut out = String::new();
+    let mut n = 0usize;
+    for (key, ops) in blocks.iter() {
+        let b = physis::blowfish::Blowfish::new(key);
+        let mut results: Vec<Vec<Option<Vec<u8>>>> = vec![vec![]; ops.len()];
+        if threads == 1 {
+            for (i, (enc, m)) in ops.iter().enumerate() {
+                results[i].push(run(&b, *enc, m));
+            }
+        } else {
+            let shared = &b;
+            let parts: Vec<Vec<(usize, Option<Vec<u8>>)>> = std::thread::scope(|sc| {
+                let hs: Vec<_> = (0..threads)
+                    .map(|t| {
+                        sc.spawn(move || {
+                            let mut mine = vec![];
+                            for _ in 0..reps {
+                                for (i, (enc, m)) in ops.iter().enumerate() {
+                                    if i % threads == t {
+                                        mine.push((i, run(shared, *enc, m)));
+                                    }
+                                }
+                            }
+                            mine
+                        })
+                    })
+                    .collect();
+                hs.into_iter().map(|h| h.join().unwrap_or_default()).collect()
+            });
+            for part in parts {
+                for (i, r) in part {
+                    results[i].push(r);
+                }
+            }
+        }
+        for rs in results.iter() {
+            n += rs.len();
+            let first = rs.first().cloned().flatten();
+            if let Some(other) = rs.iter().find(|r| **r != first) {
+                out.push_str(&format!(
+                    "differs {} {}\n",
+                    first.as_ref().map(|x| hex(x)).unwrap_or("none".into()),
+                    other.as_ref().map(|x| hex(x)).unwrap_or("none".into())
+                ));
+            } else {
+                out.push_str(&format!("{}\n", first.map(|x| format!("h{}", hex(&x))).unwrap_or("none".into())));
+            }
+        }
     }
     ctx.done();
     if std::fs::write(&a[1], out).is_err() {
